@@ -80,4 +80,18 @@ def shrink(prop, w, cfg, trace, sig, max_s=25.0, max_tests=1500):
                     trace = cand
                     e = e2
     trace = ddmin(trace, test, budget)
-    return cfg, trace, {"shrunk": True, "tests": tests[0], "seconds": round(time.time() - t0, 2)}
+    # 4. a generated text is one event: reduce the abstract design behind it and render it again
+    reduced = 0
+    for idx in range(len(trace)):
+        if trace[idx].get("op") == "fs_put" and "design" in trace[idx] and not budget():
+            from .design_shrink import reduce_event
+
+            def test_ev(e2, idx=idx):
+                tests[0] += 1
+                return _same(prop, w, cfg, trace[:idx] + [e2] + trace[idx + 1:], sig)
+            trace[idx], k = reduce_event(trace[idx], test_ev, budget)
+            reduced += k
+    info = {"shrunk": True, "tests": tests[0], "seconds": round(time.time() - t0, 2)}
+    if reduced:
+        info["design_reductions"] = reduced
+    return cfg, trace, info
